@@ -330,7 +330,7 @@ def probe(steps, spans=False):
                 live.append(st["h"])
             elif st.get("op") in ("drop", "fnew") and st.get("h") in live:
                 live.remove(st["h"])
-        if st.get("ev") != "call" or st.get("op") in ("exit", "flush", "ctxl", "ctxs"):
+        if st.get("ev") != "call" or st.get("op") in ("exit", "flush", "ctxl", "ctxs", "elapsed"):
             continue
         # not while the call is still in progress: its further pushes are separate steps of that thread
         nxt = next((x for x in steps[i + 1:] if x.get("t") == st.get("t") and x.get("ev") in ("call", "push")), None)
@@ -341,6 +341,8 @@ def probe(steps, spans=False):
             # ... and SpanContext::from_span of every handle that is alive
             for h in live:
                 out.append(dict(ev="call", t=st["t"], op="ctxs", h=h))
+                # ... and Span::elapsed() (C18: the monotonic time since the span started, None for a span that does not record)
+                out.append(dict(ev="call", t=st["t"], op="elapsed", h=h))
     return out
 
 
